@@ -793,12 +793,22 @@ def multi_part(quick):
         t_from_ode,
     )
 
-    def eqs(state, _t, control, out):
+    def eqs1(state, _t, control, out):
         out[0] = -state[0] + control[0]
         out[1] = -0.5 * state[1] + control[0]
 
-    def ctrl(state, _t, params, out):
+    def ctrl1(state, _t, params, out):
         out[0] = params[0] * state[0]
+
+    # the same system with a second control output (all bundled systems
+    # have one; the signatures carry the number of outputs explicitly)
+    def eqs2(state, _t, control, out):
+        out[0] = -state[0] + control[0]
+        out[1] = -0.5 * state[1] + control[0] - 0.25 * control[1]
+
+    def ctrl2(state, _t, params, out):
+        out[0] = params[0] * state[0]
+        out[1] = 0.5 * state[0] * state[1]
 
     s1 = np.array([1.0, -2.0])
     s2 = np.array([0.5, 0.25])
@@ -813,10 +823,12 @@ def multi_part(quick):
     # gain -1: all well-behaved; 40: states with x0 != 0 leave +-1e10 within
     # the time limit (run cut short); 1e30: controller output out of range
     # at t = 0 (single failure row)
-    plan = [(groups, stepss, -1.0)]
+    plan = [(groups, stepss, -1.0, 1)]
     mixed = [[], [s1, s0], [s0, s1], [s0, s1, s0]]
-    plan += [(mixed, (3,) if quick else (3, 7), g) for g in (40.0, 1e30)]
-    for groups, stepss, gain in plan:
+    plan += [(mixed, (3,) if quick else (3, 7), g, 1) for g in (40.0, 1e30)]
+    plan += [(groups, (3, 7), -1.0, 2), (mixed, (3,), 1e30, 2)]
+    for groups, stepss, gain, cdim in plan:
+        eqs, ctrl = (eqs1, ctrl1) if cdim == 1 else (eqs2, ctrl2)
         for tests, trains in itertools.product(groups, groups):
             if not tests and not trains:
                 continue
@@ -825,23 +837,31 @@ def multi_part(quick):
                     for (usd, gamma) in ((-1, 0.1), (1, 2.0)):
                         got = []
                         params = np.array([gain])
-                        multi_run_ode(tests, trains,
-                                      lambda i, o, j, t: got.append(
-                                          (i, np.array(o), j, t)),
-                                      eqs, ctrl, params, 1, ts, tt, trs, trt,
-                                      usd, gamma)
+                        raised = None
+                        try:
+                            multi_run_ode(tests, trains,
+                                          lambda i, o, j, t: got.append(
+                                              (i, np.array(o), j, t)),
+                                          eqs, ctrl, params, cdim, ts, tt,
+                                          trs, trt, usd, gamma)
+                        except Exception as e:  # noqa
+                            raised = f"{type(e).__name__}: {e}"
                         cnt += 1
                         exp = []
                         for sp in tests:
-                            exp.append(run_ode(sp, eqs, ctrl, params, 1, ts,
+                            exp.append(run_ode(sp, eqs, ctrl, params, cdim, ts,
                                                tt))
                         for sp in trains:
-                            exp.append(run_ode(sp, eqs, ctrl, params, 1, trs,
+                            exp.append(run_ode(sp, eqs, ctrl, params, cdim, trs,
                                                trt))
                         want = [ts] * len(tests) + [trs] * len(trains)
                         ok = len(got) == len(exp)
                         why = "number of collected results"
-                        if ok:
+                        if raised is not None:
+                            ok = False
+                            why = ("raises " + raised.split(":")[0] + " 0 ("
+                                   + raised + ")")
+                        if ok and raised is None:
                             for k, (i, o, j, t) in enumerate(got):
                                 if i != k:
                                     ok, why = False, "index order"
@@ -862,7 +882,8 @@ def multi_part(quick):
                                 f"multi_run_ode with test states "
                                 f"{[x.tolist() for x in tests]} and training "
                                 f"states {[x.tolist() for x in trains]}, "
-                                f"controller gain {gain}, steps "
+                                f"controller gain {gain}, {cdim} control "
+                                f"output(s), steps "
                                 f"({ts}, {trs}), times ({tt}, {trt}): {why} "
                                 "(compared with run_ode on each state alone)",
                                 {"multi": True, "tests": len(tests),
